@@ -18,6 +18,7 @@ type Bar struct {
 	index        int  // used by heap
 	priority     int  // used by heap
 	popped       bool // used by heap: moved above all bars by pop-completed mode, its place is final
+	handedOver   bool // used by container: its last frame is out, bars queued after it were released
 	frameCh      chan *renderFrame
 	operateState chan func(*bState)
 	container    *Progress
